@@ -146,7 +146,7 @@ Clauses(r) ==
 Sig(r, f) ==
     IF r.api = "rff" THEN "residual_flux_fraction_map"
     ELSE f[1] \o ":" \o r.mode
-         \o (IF r.hasinv THEN (IF AnyReg(r.inv.objs) /\ ~ AllReg(r.inv.objs) THEN ":MixedRegularization" ELSE ":inversion") ELSE "")
+         \o (IF r.hasinv /\ "inv" \in DOMAIN r THEN (IF AnyReg(r.inv.objs) /\ ~ AllReg(r.inv.objs) THEN ":MixedRegularization" ELSE ":inversion") ELSE "")
 
 Want(r) ==
     IF r.api = "rff" /\ WellFormed(r)
@@ -155,7 +155,7 @@ Want(r) ==
     THEN LET ref == SlimEval(r.d, r.m, r.e, r.sky) IN
          [res |-> ref.res, nres2 |-> ref.nres2, chi2map4 |-> ref.chi2map4, chi2q |-> ref.chi2q, nn_fix |-> ref.nn,
           sn2 |-> ref.sn2]
-         @@ (IF r.hasinv /\ r.inv.lat /\ Len(RegIdx(r.inv.objs)) <= 4
+         @@ (IF r.hasinv /\ r.raised = "" /\ r.inv.lat /\ Len(RegIdx(r.inv.objs)) <= 4
                 /\ IsMatrix(r.inv.FH, TotalP(r.inv.objs), TotalP(r.inv.objs)) /\ IsMatrix(r.inv.H, TotalP(r.inv.objs), TotalP(r.inv.objs))
                 /\ NoOffM(r.inv.FH) /\ NoOffM(r.inv.H)
                 /\ DetSafe(SubMat(r.inv.FH, RegIdx(r.inv.objs)), Len(RegIdx(r.inv.objs)))
